@@ -152,6 +152,8 @@ func HarnessC20() {
 	valid := zzvrt.And(zzvrt.DIs(d, "tag/code", zzvrt.KString), len(s) >= mn)
 	zzvrt.Assume(zzvrt.Iff(len(s) >= mn, zzvrt.RuneLen(s) >= mn)) // outside the byte/rune finding
 	zzvrt.Check("C10.ref-keeps-its-document-meaning", zzvrt.Iff(accepted, valid))
+	// C11: the allOf in money.json is the conjunction of ITS document's branches
+	zzvrt.Check("C11.multi-doc.allOf-of-a-ref-branch-means-its-own-document", zzvrt.Iff(accepted, valid))
 	// C04: `code` is required by money.json's Base, which Money composes through allOf/$ref
 	zzvrt.Check("C04.multi-doc.required-through-allOf-ref-branch", zzvrt.Implies(zzvrt.DIs(d, "tag/code", zzvrt.KAbsent), zzvrt.Not(accepted)))
 }
